@@ -349,6 +349,8 @@ def wd(pid):
 def check_c16(tier, seed, res):
     n = 400 if tier == "quick" else 20000
     cases = gen_cases("c16", seed, n, tier)
+    cases += "\n".join(l.replace(" ", " b", 1).replace(" b", " ", 1) if False else l for l in gen_cases("c16b", seed, n, tier).splitlines()) + "\n"
+    cases = renumber(cases)
     model, impl = differential(cases, wd("C16"), "main")
 
     def spec(line, i):
@@ -593,6 +595,225 @@ def check_c14(tier, seed, res):
                 "errors 0..8, arbitrary OIDs/values/criticality) through the real constructors, Encode and decodeControl, compared byte-exact "
                 "with the model's encoding and with the typed fields; Behera constructor over the product of 12 boundary values per option; "
                 "distinct = distinct case text, all non-trivial")
+
+
+# --------------------------------------------------------------------------
+# C04 responses, C03 mux: independent spec evaluators over the case text
+
+class TokS:
+    def __init__(self, toks):
+        self.t = toks; self.i = 0
+    def next(self):
+        x = self.t[self.i]; self.i += 1; return x
+    def int(self):
+        return int(self.next())
+    def lst(self, f):
+        return [f() for _ in range(self.int())]
+    def hexlist(self):
+        return self.lst(self.next)
+    def control(self):
+        k = self.next()
+        if k == "paging": return (k, self.next(), self.next())
+        if k == "behera": return (k, self.next(), self.next(), self.next())
+        if k == "vchuwarn": return (k, self.next())
+        if k == "managedsait": return (k, self.next())
+        if k == "str": return (k, self.next(), self.next(), self.next())
+        return (k,)
+    def controls(self):
+        return self.lst(self.control)
+    def gomap(self):
+        return self.lst(lambda: (self.next(), self.hexlist()))
+
+OIDS = {"paging": "1.2.840.113556.1.4.319", "behera": "1.3.6.1.4.1.42.2.27.8.5.1", "vchuchange": "2.16.840.1.113730.3.4.4",
+        "vchuwarn": "2.16.840.1.113730.3.4.5", "managedsait": "2.16.840.1.113730.3.4.2", "msnotif": "1.2.840.113556.1.4.528",
+        "msshowdel": "1.2.840.113556.1.4.417", "mslinkttl": "1.2.840.113556.1.4.2309"}
+
+
+def hx(s):
+    return s.encode().hex() if s else "-"
+
+
+def int16(z):
+    m = z % 65536
+    return m - 65536 if m >= 32768 else m
+
+
+def c04_expect(line):
+    """What the property says must arrive, computed from the case alone.
+    Returns a dict of the fields checked against the implementation's parse."""
+    t = TokS(line.split(" ")[2:])
+    msgid = t.int(); kind = t.next(); dn = t.next()
+    o = dict(diag=hx("Unused"), matched=hx("Unused"), code=None, app=None, attrs=[])
+    for _ in range(t.int()):
+        k = t.next()
+        if k == "diag": o["diag"] = t.next()
+        elif k == "matched": o["matched"] = t.next()
+        elif k == "code": o["code"] = t.int()
+        elif k == "app": o["app"] = t.int()
+        elif k == "attrs": o["attrs"] = t.gomap()
+    if kind in ("general", "modify"):
+        code = int16(o["code"] if o["code"] is not None else 53)
+        diag, matched = o["diag"], o["matched"]
+    else:
+        code = int16(o["code"] if o["code"] is not None else 0)
+        diag, matched = "-", "-"
+    tag = dict(general=o["app"] if o["app"] is not None else 24, bind=1, ext=24, done=5, entry=4, modify=7)[kind]
+    ctrls = []
+    added = []
+    for _ in range(t.int()):
+        k = t.next()
+        if k == "code": code = int16(t.int())
+        elif k == "diag": diag = t.next()
+        elif k == "matched": matched = t.next()
+        elif k == "ctrls": ctrls = t.controls()
+        elif k == "addattr": added.append((t.next(), t.hexlist()))
+        elif k == "name": t.next()
+    if kind == "entry":
+        attrs = sorted(o["attrs"], key=lambda a: a[0]) + added
+        parts = ["%s %s" % (n, " ".join([str(len(vs))] + vs)) for n, vs in attrs]
+        return "entry %d %s %s" % (msgid, dn, " ".join([str(len(parts))] + parts)), None
+    oids = []
+    for c in ctrls:
+        if c[0] == "str":
+            oids.append((c[1], c[2]))
+        elif c[0] == "managedsait":
+            oids.append((hx(OIDS[c[0]]), c[1]))
+        else:
+            oids.append((hx(OIDS[c[0]]), "0"))
+    return "result %d %d %d %s %s" % (msgid, tag, code, matched, diag), oids
+
+
+@check("C04")
+def check_c04(tier, seed, res):
+    n = 3000 if tier == "quick" else 150000
+    cases = gen_cases("c04", seed, n, tier)
+    model, impl = differential(cases, wd("C04"), "main")
+    dist = {}
+    for k, line in case_map(cases).items():
+        res.evaluations += 1
+        i = impl.get(k); m = model.get(k)
+        if i is None or m is None or i.startswith("HARNESS") or m.startswith("DRIVER"):
+            res.mismatch(line, str(i), str(m)); continue
+        kind = line.split(" ")[3]
+        dist[kind] = dist.get(kind, 0) + 1
+        res.nontrivial.add(line.split(" ", 2)[2])
+        if " | " not in i:
+            res.violation("resp:" + i.split(" ")[0].lower() + ":" + kind, line, i, m, "response could not be built or written"); continue
+        ibytes, iparsed = i.split(" | ")
+        want, oids = c04_expect(line)
+        ok = iparsed.startswith(want + " ") or iparsed == want
+        if ok and oids is not None:
+            tail = iparsed[len(want):].strip().split(" ")
+            got = [(tail[1 + 3 * j], tail[2 + 3 * j]) for j in range(int(tail[0]))] if tail and tail[0] else []
+            ok = got == oids
+        if not ok:
+            res.violation("resp-fields:" + kind, line, i, want, "the LDAPMessage on the wire does not carry the request's id / the constructor's tag / the values set"); continue
+        if i != m:
+            res.mismatch(line, i, m)
+        elif res.evaluations % 307 == 1:
+            res.sample(line[:200] + "  =>  " + iparsed[:160])
+    res.extra["distribution"] = dist
+    res.rule = ("seeded (constructor, options, setters) programs for the six New*Response constructors: ids 0..2^31-1 with boundaries, codes 0..32767, "
+                "application codes 0..30, size-biased strings (empty, binary, 127/128, 255/256, 300+), 0..3 map attributes x 0..2 values plus AddAttribute, "
+                "controls of every kind on Bind/SearchDone; real ResponseWriter.Write output parsed by the harness's strict parser, compared (a) with the "
+                "expectation computed from the case text by check.py, (b) byte-exact with the model; distinct = distinct program text, all non-trivial")
+
+
+def ascii_fold_eq(a, b):
+    return bytes.fromhex(a if a != "-" else "").lower() == bytes.fromhex(b if b != "-" else "").lower()
+
+
+def c03_expect(line):
+    t = TokS(line.split(" ")[2:])
+    regs = []
+    for _ in range(t.int()):
+        k = t.next(); h = t.next()
+        r = dict(kind=k, h=h)
+        if k == "search":
+            r["base"] = t.next(); r["filter"] = t.next(); r["scope"] = t.int()
+        elif k == "ext":
+            r["name"] = t.next()
+        regs.append(r)
+    kind = t.next(); msgid = t.int()
+    req = dict(kind=kind, id=msgid)
+    if kind == "search":
+        req["base"] = t.next(); req["scope"] = t.int()
+        t.int(); t.int(); t.int(); t.next()
+        fk = t.next()
+        if fk == "eq":
+            a = bytes.fromhex(t.next()); v = bytes.fromhex(t.next())
+            req["filter"] = (b"(" + a + b"=" + v + b")").hex()
+        elif fk == "present":
+            a = bytes.fromhex(t.next())
+            req["filter"] = (b"(" + a + b"=*)").hex()
+        else:
+            return None
+    elif kind == "ext":
+        req["name"] = t.next()
+    default = None
+    for r in regs:
+        if r["h"] == "nil":
+            continue
+        if r["kind"] == "default":
+            default = r["h"]
+    for r in regs:
+        if r["h"] == "nil" or r["kind"] in ("default", "unbind"):
+            continue
+        if r["kind"] != kind:
+            continue
+        if kind == "search":
+            if r["base"] != "-" and not ascii_fold_eq(req["base"], r["base"]): continue
+            if r["filter"] != "-" and not ascii_fold_eq(req["filter"], r["filter"]): continue
+            if r["scope"] != 0 and r["scope"] != req["scope"]: continue
+        if kind == "ext" and r["name"] != req["name"]:
+            continue
+        return "RUN " + r["h"]
+    if default is not None:
+        return "RUN " + default
+    tag = dict(bind=1, search=5, modify=7, add=9, **{"del": 11}, ext=24)[kind]
+    return "REFUSE result %d %d 53 " % (msgid, tag)
+
+
+@check("C03")
+def check_c03(tier, seed, res):
+    n = 2000 if tier == "quick" else 200000
+    cases = gen_cases("c03", seed, n, tier)
+    model, impl = differential(cases, wd("C03"), "main")
+    dist = {"RUN": 0, "REFUSE": 0}
+    for k, line in case_map(cases).items():
+        res.evaluations += 1
+        i = impl.get(k); m = model.get(k)
+        if i is None or m is None or i.startswith("HARNESS") or m.startswith("DRIVER"):
+            res.mismatch(line, str(i), str(m)); continue
+        res.nontrivial.add(line.split(" ", 2)[2])
+        want = c03_expect(line)
+        head = i.split(" ")[0]
+        dist[head] = dist.get(head, 0) + 1
+        reqkind = None
+        if want is not None:
+            ok = (i == want) if want.startswith("RUN") else i.startswith(want)
+            if not ok:
+                key = "refusal-tag" if (want.startswith("REFUSE") and i.startswith("REFUSE")) else "dispatch"
+                res.violation(key, line, i, want, "not exactly the first matching route / default route / refusal with the operation's response type"); continue
+        if i != m:
+            res.mismatch(line, i, m)
+        elif res.evaluations % 9001 == 1:
+            res.sample(line[:220] + "  =>  " + i[:100])
+    res.extra["distribution"] = dist
+    res.exhaustive = True
+    res.rule = ("route tables over the 43-route alphabet (bind, modify, add, delete, 3 extended names, search with base in {none,dc=a,DC=A,dc=b} x filter in "
+                "{none,(cn=x),(CN=X)} x scope in {0,1,2}) x default in {none, set, set twice} x 53 requests: exhaustive for tables of length <= 1, for length 2 "
+                "exhaustive over routes of the request's own kind (all kinds in the thorough tier), random tables up to length 8 (32 thorough) with nil handlers "
+                "and unbind routes; real Mux registration methods and (*Mux).serve; expectation computed from the case text by check.py; distinct = distinct case text")
+
+
+def renumber(text):
+    out = []
+    for j, l in enumerate(text.splitlines()):
+        p = l.split(" ", 2)
+        if len(p) >= 2:
+            out.append("%s %d %s" % (p[0], j + 1, p[2] if len(p) > 2 else ""))
+    return "\n".join(out) + "\n"
 
 
 def entry_names(i):
